@@ -2,7 +2,7 @@ import ArgoVerif.Proofs.Ledger
 import ArgoVerif.Proofs.LedgerRuns
 /-
 Props.C18Strict — the one C18 statement that does NOT hold for the ladder as it is in the unchanged tree
-(finding F8).  checks/c18.py builds this module separately: while it fails, the check searches for (and
+(finding C18-A).  checks/c18.py builds this module separately: while it fails, the check searches for (and
 finds) the concrete failing call — `ABT_pool_add_sched(user-defined pool, automatic scheduler)` with the
 unit allocation failing — and reports it (VIOLATION, or KNOWN-FINDING once the lead lists it as open);
 once /repo is fixed the module builds and the statement joins the discharged obligations.
